@@ -11,6 +11,9 @@ CHECKS = {
  'C02': dict(level='exploration', ref='3/C02', technique='TLA+ trace acceptor over the vendored corpus (Corpus.tla: Render(e) enabled only with the expected output; completeness invariant), TLC',
    text='All 652 examples are rendered on every run and the trace is consumed by Corpus.tla; exhaustive over the finite corpus. The oracle is data (the vendored corpus), the specification adds equality and completeness book-keeping.',
    note='Trusted: harness/htmlnorm.py (applied to both sides), the vendored corpus (sha256 pinned), TLC.'),
+ 'C03': dict(level='model_checking', ref='3/C03', technique='TLA+ typing model of Markdown documents (DocGen.tla) explored by TLC exhaustively within small bounds and in simulation mode; every generated behaviour (source + HTML of the intended tree, both written by the specification) replayed into the real parser/renderer (spec -> code)',
+   text='DocGen.tla types documents action by action under CommonMark guards and writes source text and expected HTML itself; TLC checks its type, line-order and first-wins invariants and exports every finished document; the harness renders each source with the real HtmlRenderer and compares after CommonMark test normalisation.',
+   note='Trusted: the CommonMark rules transcribed as guards of DocGen.tla (validated against the unchanged parser and the specification text; every disagreement was triaged), harness/htmlnorm.py. Tables, HTML blocks and some inline constructs are not yet typed by the model.'),
  'C04': dict(level='exploration', ref='3/C04', technique='TLA+ law (Laws!QuoteLaw, Laws!ListLaw) judged by TLC on recorded parses (trace validation)',
    text='Every recorded (base parse, embedded parse) pair is judged by TLC against the embedding laws; inputs are sampled (corpus, mutations, splices, random), so this is exploration with a TLA+ oracle, not exhaustive.',
    note='Trusted: the textual embedding functions and the token projection in harness/; TLC. Texts with whitespace-only lines are outside the list law.'),
@@ -20,6 +23,9 @@ CHECKS = {
  'C06': dict(level='model_checking', ref='3/C06', technique='TLA+ model of the CommonMark 0.30 delimiter algorithm (Emphasis.tla) explored exhaustively by TLC; every behaviour replayed into the real parser (spec -> code)',
    text='TLC runs the delimiter algorithm on every string over {a,space,*,_,.} up to length 7/9 and over {a,*},{a,_} up to 12/14, checks laminarity and stack invariants on the model, and exports the expected structure; the harness compares the real HTML for each string. Random wide-alphabet strings are judged through the same model in batch.',
    note='Trusted: the transcription of the CommonMark algorithm in Emphasis.tla (validated against the corpus through the unchanged parser and by review), the class table for wide characters, observation through an ATX heading.'),
+ 'C07': dict(level='model_checking', ref='3/C07', technique='TLA+ typing model (DocGen.tla, definitions and references enabled) with first-definition-wins resolution in the specification; exhaustive placements within bounds + simulation; replayed into the real parser (spec -> code)',
+   text='All documents of <= 3 blocks at nesting <= 1 over paragraphs, definitions, quotes and list items (every placement of definitions relative to uses) and simulated larger ones; the specification resolves references (FirstWins invariant checked by TLC) and writes the expected HTML and definition table; the harness compares real HTML and Document.footnotes.',
+   note='Trusted: the label base table of DocGen.tla (case / inner-whitespace variants, near-duplicates); Unicode case folding is outside the model.'),
  'C09': dict(level='exploration', ref='3/C09', technique='TLA+ law (Laws!RoundTripLaw) judged by TLC on recorded render/parse round trips (trace validation)',
    text='Round-trip records (x, y=render(parse x), z, HTML and definitions of x and y) for the 652 corpus examples x normalize_whitespace are judged by TLC; failing corpus examples that the property sets aside are listed individually in known_findings.json.',
    note='Trusted: exact string equality of HtmlRenderer output as "identical HTML"; TLC.'),
@@ -32,6 +38,9 @@ CHECKS = {
  'C12': dict(level='model_checking', ref='3/C12', technique='TLA+ model of the BFS walker (Traverse.tla) checked exhaustively by TLC and replayed into utils.traverse; TreeShape.tla predicates judged by TLC on dumps of real parses',
    text='Traverse.tla is explored over all trees of <= 4/5 nodes x filters x depth limits x include_source and refines the property-tier ExpectedYields; each case is replayed on a real token tree. Shape, traversal and AST-mirror laws are judged by TLC on dumps of real parses under four token sets (sampled inputs).',
    note='Trusted: the dump of the object graph in harness/c12.py, the child-kind table in TreeShape.tla (taken from the class docstrings), TLC.'),
+ 'C13': dict(level='model_checking', ref='3/C13', technique='TLA+ typing model (DocGen.tla) records the line on which every block starts; behaviours replayed into the real parser and (class, line_number) sequences compared (spec -> code)',
+   text='For every document typed by DocGen.tla (exhaustive small bounds + simulation) the specification knows the line on which it wrote each block; the harness compares with token.line_number of every block token in document order.',
+   note='Trusted: the line book-keeping of DocGen.tla (LinesOrdered invariant checked by TLC). Tables and containers that begin with a blank line are not yet typed by the model.'),
  'C15': dict(level='exploration', ref='3/C15', technique='TLA+ model of the supply paths (Forms.tla, exhaustive small texts, replayed into the API) plus Laws!FormsLaw / Laws!CliLaw judged by TLC on recorded outputs',
    text='Forms.tla shows all supply paths yield one line list for every text of <= 3 lines over 8 bodies; each such text and sampled corpus/fuzz texts are pushed through str/list/iterator/file/cli.convert and real python -m mistletoe subprocesses; TLC judges output equality and CLI concatenation.',
    note='Trusted: harness/c15.py form drivers; texts with line terminators other than LF are outside the domain.'),
